@@ -3,6 +3,7 @@ import StepModel.ComplexBuild
 import StepModel.ComplexSafeTop
 import StepModel.ComplexSemHead
 import StepModel.ComplexForest3
+import StepModel.ComplexForestAgree
 import StepModel.ComplexInit
 /-!
 # C08 — complex instances are accepted exactly when the supertype constraints allow them
@@ -131,10 +132,10 @@ theorem C08_entTree_meaning (s : Schema) (f : Nat) (n : Name) (t : Tree) (ht : e
 /-- On a forest, the tree of an entity derives exactly the sets that are legal *rooted at that entity* (`Flat`: inside its
 subtree, closed under supertypes below it, every member's own ONEOF/AND/ANDOR rule satisfied over the subtypes present,
 ABSTRACT members have a subtype present); the list of an entity derives those with at least one direct subtype present. -/
-theorem C08_tree_meaning_flat {s : Schema} {lvl : Name → Nat} (W : ForestWF s lvl) (hag : AgreeAll s) (f : Nat) :
+theorem C08_tree_meaning_flat {s : Schema} {lvl : Name → Nat} (W : ForestWF s lvl) (f : Nat) :
     (∀ n t X, entTree s f n = some t → (Der (denote t) X ↔ Flat s n X)) ∧
     (∀ e h X, e ∈ s → e.subs ≠ [] → headOf s f e = some h → (Der (denote h) X ↔ Flat s e.name X ∧ present e X ≠ [])) :=
-  tree_flat W hag f
+  tree_flat W (agree_of_forest W) f
 
 /-- On a forest, `Spec.Legal` (incl. its breadth-first `connected`) is rooted legality at an entity without supertype. -/
 theorem C08_legal_iff_rooted {s : Schema} {lvl : Name → Nat} (W : ForestWF s lvl) (X : List Name) :
@@ -146,12 +147,18 @@ Excluded, with the reason: (a) schemas in which some entity has two or more supe
 (`C08_eval_legal_witness_multi`); (b) one-member sets — a non-abstract root alone is legal but no list derives it
 (`C08_eval_legal_witness_single`, finding single-part-refused); (c) ABSTRACT entities without any subtype
 (`ForestWF.abstract_subs`; finding abstract-without-subtypes:accepts-illegal); (d) an expression naming a subtype twice;
-(e) redundant inheritance (`AgreeAll`, checked per schema).  `ForestWF` and `AgreeAll` are checked by the Lean driver
-(`forest`, `implok`) on every generated single-supertype schema. -/
-theorem C08_eval_legal_partial {s : Schema} {lvl : Name → Nat} (W : ForestWF s lvl) (hag : AgreeAll s)
+(e) a cycle in the subtype graph (`lvl`).  That `addImplicitSubs` finds the same implicit subtypes as the declarations show
+is *proved* for forests (`C08_forest_implicit_agree`); `ForestWF` is checked by the Lean driver (`forest`) on every generated
+single-supertype schema. -/
+theorem C08_eval_legal_partial {s : Schema} {lvl : Name → Nat} (W : ForestWF s lvl)
     (fuel : Nat) (c : Collect) (hc : collectOf s fuel = some c) (X : List Name) (h2 : ∃ a ∈ X, ∃ b ∈ X, a ≠ b) :
     evalB c [] X = true ↔ Legal s X = true :=
-  eval_legal_forest W hag fuel c hc X h2
+  eval_legal_forest W (agree_of_forest W) fuel c hc X h2
+
+/-- on a forest the subtypes `addImplicitSubs` finds missing among the leaves of the list are exactly the subtypes the
+expression does not mention (the hypothesis of `C08_head_meaning`), for every entity and every fuel -/
+theorem C08_forest_implicit_agree {s : Schema} {lvl : Name → Nat} (W : ForestWF s lvl) : AgreeAll s :=
+  agree_of_forest W
 
 -- ------------------------------------------------------------------ regenerated constants the model relies on
 theorem C08_enum_order : markTypeNames = assumedMarkNames ∧ matchTypeNames = assumedMatchNames := by decide
@@ -234,29 +241,22 @@ theorem exForest : ForestWF exOneofAndor exLvl where
   lvl_lt := by decide
   abstract_subs := by decide
 
-theorem exAgree : AgreeAll exOneofAndor := by
-  intro e he f b hb
-  simp only [exOneofAndor, List.mem_cons, List.mem_nil_iff, or_false] at he
-  rcases he with rfl | rfl | rfl | rfl
-  · cases f with
-    | zero => simp [exprKids, exprKidsL, entTree] at hb
-    | succ f =>
-      simp [exprKids, exprKidsL, entTree, Schema.find, exOneofAndor] at hb
-      subst hb
-      unfold ImplicitAgree; decide
-  all_goals (simp at hb; subst hb; unfold ImplicitAgree; decide)
-
-
 /-- `C08_eval_legal_partial` applied: for the example schema, every request with two or more members is derivable from
 the emitted tree exactly when it is legal -/
 theorem C08_eval_legal_example (X : List Name) (h2 : ∃ a ∈ X, ∃ b ∈ X, a ≠ b) :
     evalB exOneofAndorTree [] X = true ↔ Legal exOneofAndor X = true :=
-  C08_eval_legal_partial exForest exAgree 50 exOneofAndorTree C08_collectOf_example X h2
+  C08_eval_legal_partial exForest 50 exOneofAndorTree C08_collectOf_example X h2
 
 -- ------------------------------------------------------------------ EntNode::sort (renamed parts)
 /-- with strict comparisons in `lastSmaller` (the source before fixes/C08-2) two equal names make `EntNode::sort`
 dereference NULL: request list `a a c b` (replayed on the real code by the sort stream once the finding is listed) -/
 theorem C08_sort_strict_crash_witness : sortNodesWith false [0, 0, 2, 1] = .crash .sortNullChunk := by decide +kernel
+
+/-- `EntNode::sort` leaves an already ascending request list unchanged (both comparison variants, every list): aliases
+that do not disturb the order are harmless -/
+theorem C08_sort_ascending_unchanged (ns : Bool) (L : List Name) (h : L.Pairwise (· ≤ ·)) :
+    sortNodesWith ns L = .ok L :=
+  sortNodes_ascending ns L h
 
 /-- with non-strict comparisons the same list is sorted -/
 theorem C08_sort_nonstrict_example : sortNodesWith true [0, 0, 2, 1] = .ok [0, 0, 1, 2] ∧
